@@ -2,7 +2,7 @@
 use crate::rng::Rng;
 use crate::sink::Sink;
 use crate::util::*;
-use kitoken::{Configuration, Processing, ProcessingDirection};
+use kitoken::{Configuration, Decoding, DecodingReplacePattern, Processing, ProcessingDirection};
 
 pub fn proc_enc(p: &Processing) -> String {
     let d = |d: &ProcessingDirection| match d {
@@ -116,6 +116,7 @@ pub fn gen(rng: &mut Rng, thorough: bool, out: &mut Sink) {
         }
         out.push(proc_line(&steps, &s));
     }
+    gen_decsteps(rng, thorough, out);
 }
 
 fn parse_dir(s: &str) -> Option<ProcessingDirection> {
@@ -123,6 +124,100 @@ fn parse_dir(s: &str) -> Option<ProcessingDirection> {
         "L" => Some(ProcessingDirection::Left),
         "R" => Some(ProcessingDirection::Right),
         _ => None,
+    }
+}
+
+pub fn run_decstep(steps: &[Decoding], text: &[u8]) -> (String, String) {
+    let config = Configuration { decoding: steps.to_vec(), ..Configuration::default() };
+    kitoken::verif::start();
+    let r = guarded(|| {
+        let mut t = text.to_vec();
+        config.decode(&mut t);
+        t
+    });
+    let ora = crate::defs::oracle_words();
+    match r {
+        Some(t) => (format!("OK {}", hex(&t)), ora),
+        None => ("PANIC".into(), ora),
+    }
+}
+
+pub fn decstep_line(steps: &[Decoding], text: &[u8]) -> String {
+    let enc = steps.iter().map(crate::defs::dec_enc).collect::<Vec<_>>();
+    let (a, ora) = run_decstep(steps, text);
+    format!("DECSTEP {} {}{} :: {}", join_or_dash(&enc), hex(text), ora, a)
+}
+
+/// Byte strings: valid UTF-8 over a multi-byte alphabet, and arbitrary bytes incl. invalid UTF-8.
+fn random_bytes(rng: &mut Rng, max_len: usize) -> Vec<u8> {
+    let chars = ['a', ' ', 'é', '▁', '😀', '\u{fffd}', '#'];
+    let n = rng.range(0, max_len);
+    let mut v = Vec::new();
+    for _ in 0..n {
+        match rng.below(10) {
+            0 => v.push(rng.below(256) as u8),
+            1 => v.push(*rng.pick(&[0x80u8, 0xbf, 0xc0, 0xc3, 0xe2, 0xed, 0xf0, 0xf4, 0xff, 0xa0, 0x96])),
+            _ => v.extend_from_slice(rng.pick(&chars).to_string().as_bytes()),
+        }
+    }
+    v
+}
+
+pub fn gen_decsteps(rng: &mut Rng, thorough: bool, out: &mut Sink) {
+    let chars = ['a', ' ', 'é', '▁', '😀', '\u{fffd}'];
+    // exhaustive: all strings up to length 4 (5) over a 3-letter multi-byte alphabet x all parameter combinations
+    let alpha = ['a', 'é', '▁'];
+    let strings = crate::gen::all_strings(&alpha, if thorough { 5 } else { 4 });
+    let pmax = if thorough { 3 } else { 2 };
+    for s in &strings {
+        for &c in &alpha {
+            for l in 0..=pmax {
+                for r in 0..=pmax {
+                    out.push(decstep_line(&[Decoding::Strip { character: c, left: l, right: r }], s.as_bytes()));
+                    for pad in [false, true] {
+                        out.push(decstep_line(&[Decoding::Extend { character: c, left: l, right: r, pad }], s.as_bytes()));
+                    }
+                }
+            }
+            out.push(decstep_line(&[Decoding::Collapse { character: c }], s.as_bytes()));
+            out.push(decstep_line(&[Decoding::Replace { pattern: DecodingReplacePattern::Character(c), replacement: "é".into() }], s.as_bytes()));
+        }
+        for pat in ["", "a", "aa", "éa", "▁"] {
+            for rep in ["", "x", "aa"] {
+                out.push(decstep_line(
+                    &[Decoding::Replace { pattern: DecodingReplacePattern::String(pat.into()), replacement: rep.into() }],
+                    s.as_bytes(),
+                ));
+            }
+        }
+    }
+    out.exhaustive.push(format!("DECSTEP: all strings up to length {} over {{a, é, ▁}} x Strip/Extend parameters 0..{} x pad x Collapse x literal Replace", if thorough { 5 } else { 4 }, pmax));
+    // random: arbitrary bytes incl. invalid UTF-8, large parameters, sequences of steps, regex replace
+    let n = if thorough { 60000 } else { 6000 };
+    for _ in 0..n {
+        let maxlen = if rng.chance(1, 10) { 200 } else { 12 };
+        let text = random_bytes(rng, maxlen);
+        let nsteps = if rng.chance(2, 3) { 1 } else { rng.range(0, 4) };
+        let mut steps = Vec::new();
+        for _ in 0..nsteps {
+            let c = *rng.pick(&chars);
+            let big = |rng: &mut Rng| -> u32 { if rng.chance(1, 8) { u32::MAX } else { rng.range(0, 4) as u32 } };
+            steps.push(match rng.below(6) {
+                0 => Decoding::Strip { character: c, left: big(rng), right: big(rng) },
+                1 => Decoding::Extend { character: c, left: rng.range(0, 4) as u32, right: rng.range(0, 4) as u32, pad: rng.chance(1, 2) },
+                2 => Decoding::Collapse { character: c },
+                3 => Decoding::Replace { pattern: DecodingReplacePattern::Character(c), replacement: rng.pick(&["", " ", "é"]).to_string() },
+                4 => Decoding::Replace {
+                    pattern: DecodingReplacePattern::String(rng.pick(&["", " ", "▁", "##", "a a"]).to_string()),
+                    replacement: rng.pick(&["", " ", "é"]).to_string(),
+                },
+                _ => Decoding::Replace {
+                    pattern: DecodingReplacePattern::Regex(kitoken::Regex::new(*rng.pick(&[" +", "[ ](\\.|\\?|n't)", "a|é", "\\s+$"])).unwrap()),
+                    replacement: rng.pick(&["", "$1", " "]).to_string(),
+                },
+            });
+        }
+        out.push(decstep_line(&steps, &text));
     }
 }
 pub fn parse_proc(s: &str) -> Option<Processing> {
@@ -152,6 +247,10 @@ pub fn run_request(words: &[&str]) -> Option<String> {
         ["PROC", steps, ids] => {
             let steps = if *steps == "-" { Vec::new() } else { steps.split(',').map(parse_proc).collect::<Option<Vec<_>>>()? };
             Some(run_proc(&steps, &parse_ids(ids)?))
+        }
+        ["DECSTEP", steps, text] => {
+            let steps = crate::parse::parse_list(steps, crate::parse::parse_decoding)?;
+            Some(run_decstep(&steps, &unhex(text)).0)
         }
         _ => None,
     }
